@@ -432,13 +432,141 @@ func TestVerifC11Remote(t *testing.T) {
 }
 
 // concurrent deliveries through the real target: 1-64 goroutines, ending at every stage
+func c11RemConcCase(out *vh.Out, t *testing.T, be *c11Backend, cfg vlim.Cfg, seed uint64, workers, nDom int) {
+	opl := fmt.Sprintf("C11 remconc %s seed=%d workers=%d doms=%d", cfg.String(), seed, workers, nDom)
+	g, p, err := vlim.NewGroup(cfg)
+	if p != nil || err != nil {
+		return
+	}
+	tgt := c11Target(t, g)
+	var mu sync.Mutex
+	hold := [4]map[int]int{{}, {}, {}, {}}
+	viol := ""
+	bump := func(sc, k, d int) {
+		if sc != 0 && len(cfg.Scopes[sc]) == 0 {
+			return
+		}
+		mu.Lock()
+		defer mu.Unlock()
+		hold[sc][k] += d
+		if b := cfg.Bound(sc); b > 0 && hold[sc][k] > b {
+			viol = fmt.Sprintf("C11/bound\x00scope %s key %d: %d deliveries hold a permit, concurrency %d configured", vlim.ScopeNames[sc], k, hold[sc][k], b)
+		}
+	}
+	var wg sync.WaitGroup
+	var nStart, nStartTO, nRcpt, nRcptFail int64
+	for w := 0; w < workers; w++ {
+		wg.Add(1)
+		go func(w int) {
+			defer wg.Done()
+			defer func() {
+				if p := recover(); p != nil {
+					mu.Lock()
+					viol = fmt.Sprintf("C11/panic\x00delivery goroutine panicked: %v", p)
+					mu.Unlock()
+				}
+			}()
+			r := vh.NewRng(seed*31 + uint64(w))
+			for round := 0; round < 3; round++ {
+				ip, dom := 1+r.Intn(3), 1+r.Intn(nDom)
+				ctx, cancel := context.WithTimeout(context.Background(), time.Duration(20+r.Intn(400))*time.Millisecond)
+				meta := &module.MsgMetadata{ID: fmt.Sprintf("c11c-%d-%d", w, round), DontTraceSender: true,
+					Conn: &module.ConnState{RemoteAddr: &net.TCPAddr{IP: net.IPv4(127, 0, 0, byte(ip)), Port: 1}}}
+				d, err := tgt.Start(ctx, meta, "s@"+c11rDom(dom))
+				if err != nil {
+					atomic.AddInt64(&nStartTO, 1)
+					cancel()
+					continue
+				}
+				atomic.AddInt64(&nStart, 1)
+				bump(0, 0, 1)
+				bump(1, ip, 1)
+				bump(2, dom, 1)
+				dests := map[int]bool{}
+				for j := r.Intn(3); j > 0; j-- {
+					dd := 1 + r.Intn(nDom)
+					be.rejectMail.Store(r.Chance(20))
+					if err := d.AddRcpt(ctx, "rcpt@"+c11rDom(dd), smtp.RcptOptions{}); err != nil {
+						atomic.AddInt64(&nRcptFail, 1)
+						continue
+					}
+					atomic.AddInt64(&nRcpt, 1)
+					if !dests[dd] {
+						dests[dd] = true
+						bump(3, dd, 1)
+					}
+				}
+				for dd := range dests {
+					bump(3, dd, -1)
+				}
+				bump(0, 0, -1)
+				bump(1, ip, -1)
+				bump(2, dom, -1)
+				switch r.Intn(3) {
+				case 0:
+					d.Abort(context.Background())
+				case 1:
+					d.Commit(context.Background())
+				default:
+					be.rejectData.Store(r.Bool())
+					hdr := textproto.Header{}
+					hdr.Add("Subject", "c11")
+					if len(dests) > 0 {
+						d.Body(context.Background(), hdr, buffer.MemoryBuffer{Slice: []byte("body\r\n")})
+					}
+					d.Abort(context.Background())
+				}
+				cancel()
+			}
+		}(w)
+	}
+	wg.Wait()
+	out.StatN("remconc:start-ok", int(nStart))
+	out.StatN("remconc:start-limit", int(nStartTO))
+	out.StatN("remconc:rcpt-ok", int(nRcpt))
+	out.StatN("remconc:rcpt-fail", int(nRcptFail))
+	out.Stat(fmt.Sprintf("remconc:workers:%d", workers))
+	if viol != "" {
+		f := strings.SplitN(viol, "\x00", 2)
+		out.Violation(f[0], opl, f[1])
+	} else if snap := vlim.Snapshot(g, c11rKeyID); !vlim.Idle(cfg, snap) {
+		out.Violation("C11/leak", opl, "every delivery ended but permits are still in use: "+snap)
+	}
+	tgt.Close()
+	vlim.CloseGroup(g)
+}
+
+func c11rKV(f []string) map[string]int {
+	m := map[string]int{}
+	for _, x := range f {
+		if kv := strings.SplitN(x, "=", 2); len(kv) == 2 {
+			m[kv[0]], _ = strconv.Atoi(kv[1])
+		}
+	}
+	return m
+}
+
 func TestVerifC11RemoteConc(t *testing.T) {
 	out := vh.Open("c11_remote_conc")
 	defer out.Close()
-	if vh.Replay() != nil {
+	be := c11Server(t)
+	if rp := vh.Replay(); rp != nil {
+		for _, l := range rp {
+			f := strings.Fields(l)
+			if len(f) < 4 || f[0] != "C11" || f[1] != "remconc" {
+				continue
+			}
+			cfg, err := vlim.ParseCfg(f[2])
+			if err != nil {
+				t.Fatal(err)
+			}
+			kv := c11rKV(f[3:])
+			for rep := 0; rep < 5; rep++ {
+				c11RemConcCase(out, t, be, cfg, uint64(kv["seed"]), kv["workers"], kv["doms"])
+			}
+		}
 		return
 	}
-	be := c11Server(t)
 	n := vh.N(400) / 60
 	if n < 3 {
 		n = 3
@@ -449,106 +577,6 @@ func TestVerifC11RemoteConc(t *testing.T) {
 		cfg := c11RemCfg(r)
 		workers := []int{1, 4, 16, 32, 64}[r.Intn(5)]
 		nDom := 1 + r.Intn(3)
-		opl := fmt.Sprintf("C11 remconc %s seed=%d workers=%d doms=%d", cfg.String(), seed, workers, nDom)
-		g, p, err := vlim.NewGroup(cfg)
-		if p != nil || err != nil {
-			continue
-		}
-		tgt := c11Target(t, g)
-		var mu sync.Mutex
-		hold := [4]map[int]int{{}, {}, {}, {}}
-		viol := ""
-		bump := func(sc, k, d int) {
-			if sc != 0 && len(cfg.Scopes[sc]) == 0 {
-				return
-			}
-			mu.Lock()
-			defer mu.Unlock()
-			hold[sc][k] += d
-			if b := cfg.Bound(sc); b > 0 && hold[sc][k] > b {
-				viol = fmt.Sprintf("C11/bound\x00scope %s key %d: %d deliveries hold a permit, concurrency %d configured", vlim.ScopeNames[sc], k, hold[sc][k], b)
-			}
-		}
-		var wg sync.WaitGroup
-		var nStart, nStartTO, nRcpt, nRcptFail int64
-		for w := 0; w < workers; w++ {
-			wg.Add(1)
-			go func(w int) {
-				defer wg.Done()
-				defer func() {
-					if p := recover(); p != nil {
-						mu.Lock()
-						viol = fmt.Sprintf("C11/panic\x00delivery goroutine panicked: %v", p)
-						mu.Unlock()
-					}
-				}()
-				r := vh.NewRng(seed*31 + uint64(w))
-				for round := 0; round < 3; round++ {
-					ip, dom := 1+r.Intn(3), 1+r.Intn(nDom)
-					ctx, cancel := context.WithTimeout(context.Background(), time.Duration(20+r.Intn(400))*time.Millisecond)
-					meta := &module.MsgMetadata{ID: fmt.Sprintf("c11c-%d-%d", w, round), DontTraceSender: true,
-						Conn: &module.ConnState{RemoteAddr: &net.TCPAddr{IP: net.IPv4(127, 0, 0, byte(ip)), Port: 1}}}
-					d, err := tgt.Start(ctx, meta, "s@"+c11rDom(dom))
-					if err != nil {
-						atomic.AddInt64(&nStartTO, 1)
-						cancel()
-						continue
-					}
-					atomic.AddInt64(&nStart, 1)
-					bump(0, 0, 1)
-					bump(1, ip, 1)
-					bump(2, dom, 1)
-					dests := map[int]bool{}
-					for j := r.Intn(3); j > 0; j-- {
-						dd := 1 + r.Intn(nDom)
-						be.rejectMail.Store(r.Chance(20))
-						if err := d.AddRcpt(ctx, "rcpt@"+c11rDom(dd), smtp.RcptOptions{}); err != nil {
-							atomic.AddInt64(&nRcptFail, 1)
-							continue
-						}
-						atomic.AddInt64(&nRcpt, 1)
-						if !dests[dd] {
-							dests[dd] = true
-							bump(3, dd, 1)
-						}
-					}
-					for dd := range dests {
-						bump(3, dd, -1)
-					}
-					bump(0, 0, -1)
-					bump(1, ip, -1)
-					bump(2, dom, -1)
-					switch r.Intn(3) {
-					case 0:
-						d.Abort(context.Background())
-					case 1:
-						d.Commit(context.Background())
-					default:
-						be.rejectData.Store(r.Bool())
-						hdr := textproto.Header{}
-						hdr.Add("Subject", "c11")
-						if len(dests) > 0 {
-							d.Body(context.Background(), hdr, buffer.MemoryBuffer{Slice: []byte("body\r\n")})
-						}
-						d.Abort(context.Background())
-					}
-					cancel()
-				}
-			}(w)
-		}
-		wg.Wait()
-		out.StatN("remconc:start-ok", int(nStart))
-		out.StatN("remconc:start-limit", int(nStartTO))
-		out.StatN("remconc:rcpt-ok", int(nRcpt))
-		out.StatN("remconc:rcpt-fail", int(nRcptFail))
-		out.Stat(fmt.Sprintf("remconc:workers:%d", workers))
-		if viol != "" {
-			f := strings.SplitN(viol, "\x00", 2)
-			out.Violation(f[0], opl, f[1])
-		} else if snap := vlim.Snapshot(g, c11rKeyID); !vlim.Idle(cfg, snap) {
-			out.Violation("C11/leak", opl, "every delivery ended but permits are still in use: "+snap)
-		}
-		tgt.Close()
-		vlim.CloseGroup(g)
+		c11RemConcCase(out, t, be, cfg, seed, workers, nDom)
 	}
 }
